@@ -52,13 +52,13 @@ P['C07'] = dict(
     mismatch_meaning='the reader accepted or refused a correctly signed frame differently from the proved window function: concrete timestamp history',
 )
 P['C09'] = dict(
-    rule='all 54 small initialisation configurations; write histories of 300..700 messages (beyond the 256 wrap) mixing decoded and raw messages, rejected writes (raw id outside the dialect, ids above 255 on v1) at random positions, over random configurations (version, system id, component id incl. 0, key, link id) through streamwriter.Writer and frame.Writer.WriteMessage; every emitted byte string (header fields, sequence number, checksum, signature) must equal the model\'s. Non-trivial: model output not a bare rejection.',
+    rule='all 54 small initialisation configurations; write histories of 300..700 messages (beyond the 256 wrap) mixing decoded and raw messages, rejected writes (raw id outside the dialect, ids above 255 on v1) at random positions, over random configurations (version, system id, component id incl. 0, key, link id) through streamwriter.Writer and frame.Writer.WriteMessage; every emitted byte string (header fields, sequence number, checksum, signature) must equal the model\'s. Non-trivial: model output not a bare rejection.; plus histories of 10..50 messages written through a real Node (custom endpoint, OutVersion 1 and 2, random ids) whose wire bytes must equal the same model\'s',
     assumptions=[],
     mismatch_meaning='an originated frame differs from the model proved to carry the configured identity, gapless sequence numbers and correct checksum: concrete write history',
 )
 
 P['C05'] = dict(
-    rule='bounded-exhaustive: every stream over the alphabet {FE,FD,00,01,02,FF} up to length 5 (quick) / 7 (thorough) x every segmentation into transport reads (random segmentations above length 5), plus a transport error injected at every offset of the short ones; structured streams of 1..4 valid / truncated / corrupted frames (v1, v2, signed, dialect and raw) separated by junk (sometimes containing marker bytes) read whole, in two random splits, byte by byte, and with a transport error at every byte offset; compared: the whole result sequence and the number of stream items consumed by every call. Non-trivial: model output not a bare rejection.',
+    rule='bounded-exhaustive: every stream over the alphabet {FE,FD,00,01,02,FF} up to length 5 (quick) / 7 (thorough) x every segmentation into transport reads (random segmentations above length 5), plus a transport error injected at every offset of the short ones; structured streams of 1..4 valid / truncated / corrupted frames (v1, v2, signed, dialect and raw) separated by junk (sometimes containing marker bytes) read whole, in two random splits, byte by byte, and with a transport error at every byte offset; compared: the whole result sequence and the number of stream items consumed by every call. Non-trivial: model output not a bare rejection.; every structured stream is also read through a keyed reader (v1, unsigned and foreign-key frames must be refused after consuming the whole frame)',
     assumptions=['the transport returns data or an error per Read call, never both, and never an empty read', 'bufio.Reader modelled by Model/Stream.v'],
     mismatch_meaning='result sequence or per-call consumption differs from the model proved total, progressing and split-independent: concrete stream and segmentation',
 )
@@ -104,14 +104,14 @@ P['C04'] = dict(
 )
 
 P['C08'] = dict(
-    rule='common-dialect messages (those with strings first; 40 in quick, all in thorough) in v1 and v2, signed and unsigned, in six payload encodings (canonical, not zero-truncated, random bytes after NUL bytes, unknown trailing bytes beyond the extended size, fully random, sparse random) forwarded through 3 dialect hops (each hop: frame.Reader with the dialect -> frame.Writer.Write unchanged; the implementation\'s output of hop k is the input of hop k+1) and 2 raw hops (bytes must be identical); unknown ids through a dialect router; a received frame edited (message replaced by a random value of its type) then Node.FixFrame with and without OutKey, then validated at a next hop (keyed when the frame carries the signed flag). Non-trivial: a frame was delivered.',
+    rule='common-dialect messages (those with strings first; 40 in quick, all in thorough) in v1 and v2, signed and unsigned, in six payload encodings (canonical, not zero-truncated, random bytes after NUL bytes, unknown trailing bytes beyond the extended size, fully random, sparse random) forwarded through 3 dialect hops (each hop: frame.Reader with the dialect -> frame.Writer.Write unchanged; the implementation\'s output of hop k is the input of hop k+1) and 2 raw hops (bytes must be identical); unknown ids through a dialect router; a received frame edited (message replaced by a random value of its type) then Node.FixFrame with and without OutKey, then validated at a next hop (keyed when the frame carries the signed flag). Non-trivial: a frame was delivered.; the largest frames (253..255-byte payloads, signed) laid out by hand; streams of 2..9 raw frames read ahead completely from one transport and only then written out again, byte for byte',
     assumptions=['signature validation after FixFrame is checked for frames that carry the signed flag (FixFrame does not set the flag on an unsigned frame; recorded in DESIGN.md)'],
     mismatch_meaning='a hop delivered / re-emitted something different from the model proved to forward transparently: concrete wire bytes',
     find_bad=find_bad_struct,
 )
 
 P['C20'] = dict(
-    rule='entry sequences (1..4 entries; v1/v2, signed, raw and dialect-decoded messages, times before/after 1970, at int64-scale values and with sub-microsecond offsets) with unencodable entries (v1 id > 255, message not in the dialect) at random positions; written through tlog.Writer with every budget of successful underlying writes (an error at the k-th Write for every k): per-entry outcome and file bytes compared; the file read back whole and cut at EVERY byte offset, n+3 reads each: sequence of entries / errors compared. Non-trivial: an entry was written or read.',
+    rule='entry sequences (1..4 entries; v1/v2, signed, raw and dialect-decoded messages, times before/after 1970, at int64-scale values and with sub-microsecond offsets) with unencodable entries (v1 id > 255, message not in the dialect) at random positions; written through tlog.Writer with every budget of successful underlying writes (an error at the k-th Write for every k): per-entry outcome and file bytes compared; the file read back whole and cut at EVERY byte offset, n+3 reads each: sequence of entries / errors compared. Non-trivial: an entry was written or read.; the largest entry (signed v2 frame, 255-byte payload) in every eighth sequence; logs of 350..650 entries (several times the 4096-byte read buffer)',
     assumptions=['a failing underlying Write writes nothing', 'bufio.Reader modelled by the flat stream semantics (Model/Stream.v, proved equivalent to the chunked model)'],
     mismatch_meaning='file contents, reported errors or entries read back differ from the model proved to round-trip, to be truncation-safe and to leave no partial entry: concrete entry sequence / cut offset / failing write',
 )
@@ -172,7 +172,7 @@ P['C10'] = dict(
 
 P['C11'] = dict(
     bin='scen', compare=cmp_scen,
-    rule='real Node over 1..5 custom endpoints; 1..3 submitter goroutines each issuing 3..17 calls drawn from the six Write* calls (messages and forwarded frames carrying a serial number; targets all / one / all-but-one, sometimes a channel of another node), with concurrent incoming traffic, GOMAXPROCS 1/2/16; total per channel below the queue size so nothing may be dropped; a FIFO marker per channel closes the observation. Per channel: every transport write must be exactly one frame; forwarded frames keep their header, originated messages carry the configured ids and per-link sequence numbers 0,1,2,..; the serial sequence on the wire is checked by the extracted acceptance predicate fan_ok (restricted to any submitter it equals that submitter\'s targeted submissions in order, and holds nothing else). Non-trivial: the predicate was evaluated on a non-empty wire.',
+    rule='real Node over 1..5 custom endpoints; 1..3 submitter goroutines each issuing 3..17 calls drawn from the six Write* calls (messages and forwarded frames carrying a serial number; targets all / one / all-but-one, sometimes a channel of another node), with concurrent incoming traffic, GOMAXPROCS 1/2/16; total per channel below the queue size so nothing may be dropped; a FIFO marker per channel closes the observation. Per channel: every transport write must be exactly one frame; forwarded frames keep their header, originated messages carry the configured ids and per-link sequence numbers 0,1,2,..; the serial sequence on the wire is checked by the extracted acceptance predicate fan_ok (restricted to any submitter it equals that submitter\'s targeted submissions in order, and holds nothing else). Non-trivial: the predicate was evaluated on a non-empty wire.; router scenarios (every received frame forwarded to the other channels while several more arrive in the same transport read, with and without a dialect: forwarded bytes identical, in order, nothing back to the sender); a stalled sibling channel with an overflowing queue must not keep anything from the healthy one nor block the submitter',
     assumptions=['acceptance predicate fan_ok is the decidable form of C11_exactly_once + C11_wire_in_order when no queue overflows', 'scheduler perturbation is search'],
     mismatch_meaning='a wire shows a lost, duplicated, reordered, foreign or torn item, or wrong header fields: concrete submission history',
 )
@@ -185,22 +185,22 @@ P['C13'] = dict(
 
 P['C12'] = dict(
     bin='scen', compare=cmp_scen,
-    rule='real Node; Close() issued at scripted points: before the first event is consumed, reader blocked on an undelivered event, idle, writer blocked in the transport (a transport whose Write only returns on Close), channel mid-close (read error just before), traffic in flight, 100 pending writes — each with the consumer running and absent, 1..3 custom endpoints, 0..2 goroutines calling WriteMessageAll before, during and after Close, GOMAXPROCS 1/2/16; then network endpoints over loopback (TCP/UDP server with a peer, TCP client connected and in reconnect back-off, UDP client, UDP broadcast) and a node whose initialisation fails on its third endpoint. Observed: Close returns within 8 s, ranging over Events() ends, each custom transport closed exactly once, no goroutine running gomavlib/pion code is left, Write* callers returned without panic, TCP/UDP ports can be bound again. Every case expects the verdict ok. Non-trivial: every case.',
+    rule='real Node; Close() issued at scripted points: before the first event is consumed, reader blocked on an undelivered event, idle, writer blocked in the transport (a transport whose Write only returns on Close), channel mid-close (read error just before), traffic in flight, 100 pending writes — each with the consumer running and absent, 1..3 custom endpoints, 0..2 goroutines calling WriteMessageAll before, during and after Close, GOMAXPROCS 1/2/16; then network endpoints over loopback (TCP/UDP server with a peer, TCP client connected and in reconnect back-off, UDP client, UDP broadcast) and a node whose initialisation fails on its third endpoint. Observed: Close returns within 8 s, ranging over Events() ends, each custom transport closed exactly once, no goroutine running gomavlib/pion code is left, Write* callers returned without panic, TCP/UDP ports can be bound again. Every case expects the verdict ok. Non-trivial: every case.; read error while a Write is stuck in a serial device; a device handed out while Close is in progress must be closed; Close with a stuck channel whose queue has overflowed',
     assumptions=['fairness of the Go scheduler and OS release of sockets are measured, not proved', 'goroutine-leak probe: stacks containing gomavlib or pion frames, polled up to 3 s'],
     mismatch_meaning='Close did not return, or left a goroutine, socket, open event channel or unclosed custom transport behind, or a Write* call blocked / panicked: the scenario description is the replay',
 )
 
 P['C14'] = dict(
     bin='scen', compare=cmp_scen,
-    rule='(1) pkg/timednetconn over a recording net.Conn: random Read/Write sequences, the recorded call trace (deadline armed before every call, deadline value within 20 percent of the configured timeout) compared with the model; (2) serial endpoint over fake devices (verif hook), reconnect period 60 ms: scripts of 2..6 outcomes (open failure / open ok then read error with a scripted cause): observed trace of open attempts, back-offs (inferred from gaps >= 0.7 period), open and close events with their cause compared with the provider model, two channels open at once flagged; (3) custom endpoint: close event carries the injected cause; (4) TCP client against a server that accepts, sends a frame and hangs up k times after a period with nothing listening: open/close alternation compared with the model; (5) TCP and UDP servers, idle timeout 200 ms: two peers get their own channels, the silent one is closed by a timeout inside [0.9 idle, 2 idle + 1.5 s], the talking one is not, a third peer is still accepted. Non-trivial: a trace with at least one channel.',
+    rule='(1) pkg/timednetconn over a recording net.Conn: random Read/Write sequences, the recorded call trace (deadline armed before every call, deadline value within 20 percent of the configured timeout) compared with the model; (2) serial endpoint over fake devices (verif hook), reconnect period 60 ms: scripts of 2..6 outcomes (open failure / open ok then read error with a scripted cause): observed trace of open attempts, back-offs (inferred from gaps >= 0.7 period), open and close events with their cause compared with the provider model, two channels open at once flagged; (3) custom endpoint: close event carries the injected cause; (4) TCP client against a server that accepts, sends a frame and hangs up k times after a period with nothing listening: open/close alternation compared with the model; (5) TCP and UDP servers, idle timeout 200 ms: two peers get their own channels, the silent one is closed by a timeout inside [0.9 idle, 2 idle + 1.5 s], the talking one is not, a third peer is still accepted. Non-trivial: a trace with at least one channel.; in the serial scripts the devices with an odd cause have a Write stuck in the transport at the moment the read fails',
     assumptions=['deadline enforcement is the operating system\'s; expiry is checked inside a tolerant bracket (a deadline firing inside a frame surfaces as a parse error first, the next read closes the channel)', 'back-offs are observed through timing with tolerance'],
     mismatch_meaning='the observed lifecycle of channels (attempts, back-offs, open/close events and causes, idle expiry) differs from the provider model proved to reconnect after every failure with at most one channel open',
 )
 
 P['C16'] = dict(
     bin='scen', compare=cmp_scen,
-    rule='(1) heartbeats: a real Node over 1..3 scripted pipes, period 80..160 ms, random system type / autopilot type, six dialects (shipped minimal and common, custom with the standard heartbeat, without id 0, with a non-standard id 0, with a non-standard id 66,), no dialect, disabled: after 5.5 periods every pipe must hold only heartbeats with exactly the model\'s field values, or nothing when the model says off; count within [4,6], first heartbeat not before 0.6 period, gaps within [0.5,1.5] period (retried up to 3 times before TIMING is reported); (2) stream requests: histories of 5..44 frames (heartbeats from 3 systems x 2 components with autopilot 3/0/8/12, other messages, v1 and v2) over 1..3 channels, enable on/off, frequency 0/1/4/10/300/65535: per channel the decoded requests written (fields, order, sender ids) and the event sequence (stream-requested before the frame event) compared with the model; (3) thorough only: a 63 s real-time history crossing two cleaner ticks (re-request after >= 30 s, none before, cleaned entries). Non-trivial: heartbeats observed, or at least one request burst.',
-    assumptions=['tick spacing is the Go runtime ticker\'s; checked inside a tolerant bracket with retries', 'the 30 s rule is exercised in real time only in the thorough tier; the quick tier covers histories shorter than 30 s'],
+    rule='(1) heartbeats: a real Node over 1..3 scripted pipes, period 80..160 ms, random system type / autopilot type, six dialects (shipped minimal and common, custom with the standard heartbeat, without id 0, with a non-standard id 0, with a non-standard id 66,), no dialect, disabled: after 5.5 periods every pipe must hold only heartbeats with exactly the model\'s field values, or nothing when the model says off; count within [4,6], first heartbeat not before 0.6 period, gaps within [0.5,1.5] period (retried up to 3 times before TIMING is reported); (2) stream requests: histories of 5..44 frames (heartbeats from 3 systems x 2 components with autopilot 3/0/8/12, other messages, v1 and v2) over 1..3 channels, enable on/off, frequency 0/1/4/10/300/65535: per channel the decoded requests written (fields, order, sender ids) and the event sequence (stream-requested before the frame event) compared with the model; (3) in real time, run beside the rest: quick 34 s across one cleaner tick (entries younger than 30 s survive the tick, older ones are requested again), thorough 63 s across two ticks (a cleaned entry is requested again). Non-trivial: heartbeats observed, or at least one request burst.',
+    assumptions=['tick spacing is the Go runtime ticker\'s; checked inside a tolerant bracket with retries', 'the real-time history leaves margins of 1.5 s around the 30 s threshold'],
     mismatch_meaning='the heartbeats or stream requests observed on the real node (content, count of seven, addressing, events, absence when disabled or non-standard) differ from the model the C16 theorems are proved about',
 )
 
@@ -263,8 +263,18 @@ def run_race(root, env, sh, pid, tier, seed, wd, log):
         rows = sum(1 for l in open(_os.path.join(root, 'coq', 'gen', 'Access.v')) if l.lstrip().startswith('mkRow'))
     except OSError:
         rows = 0
+    distinct = set()
+    for sd in seeds:
+        for sid, t in runs:
+            try:
+                for l in open(_os.path.join(wd, 'race-%s-%d' % (sid, sd), 'cases.txt')):
+                    distinct.add(hash(l))
+            except OSError:
+                pass
     _json.dump({'access_table_rows': rows, 'race_reports_in_harness_code_only': harness_only,
-                'scenario_cases_under_race_detector': sum(hist.values())}, open(_os.path.join(wd, 'extra.json'), 'w'))
+                'scenario_runs': len(cases), 'scenario_cases_under_race_detector': sum(hist.values()),
+                'evaluations_override': sum(hist.values()), 'distinct_nontrivial_override': len(distinct)},
+               open(_os.path.join(wd, 'extra.json'), 'w'))
     return True, ''
 
 
@@ -278,7 +288,7 @@ def find_bad_access(root):
 
 P['C15'] = dict(
     bin='scen', runner=run_race, find_bad=find_bad_access, find_bad_is_input=False,
-    rule='(1) translator: /verif/access loads package gomavlib from /repo with go/packages (go/types) and regenerates coq/gen/Access.v: every selection of a field of a package struct (enclosing function, read / write / method call on the pointee, mutex lexically held, goroutine roots reaching the function in the static call graph with interface calls resolved to every implementation), the call edges, the go-statement roots, the first spawn line of Node.Initialize and the select alternatives of hand-over sends; the theorem C15_access_table_follows_policy re-checks the ownership policy on that table by vm_compute. (2) search for a concrete racy schedule: the scenario suites of C10, C11, C12, C13, C14 and C16 (real Node over scripted transports, fake serial devices, loopback TCP/UDP; concurrent writers, slow and absent consumers, closes, heartbeats and stream requests; GOMAXPROCS 1/2/16) rebuilt with -race; a detector report whose stack includes /repo code is a violation with the report as replay. Non-trivial: a scenario run that executed cases.',
+    rule='(1) translator: /verif/access loads package gomavlib from /repo with go/packages (go/types) and regenerates coq/gen/Access.v: every selection of a field of a package struct (enclosing function, read / write / method call on the pointee, mutex lexically held, goroutine roots reaching the function in the static call graph with interface calls resolved to every implementation), the call edges, the go-statement roots, the first spawn line of Node.Initialize and the select alternatives of hand-over sends; the theorem C15_access_table_follows_policy re-checks the ownership policy on that table by vm_compute. (2) search for a concrete racy schedule: the scenario suites of C10, C11, C12, C13, C14 and C16 (real Node over scripted transports, fake serial devices, loopback TCP/UDP; concurrent writers, slow and absent consumers, closes, heartbeats and stream requests; GOMAXPROCS 1/2/16) rebuilt with -race; a detector report whose stack includes /repo code is a violation with the report as replay. evaluations = scenario cases executed under the detector; non-trivial = distinct scenario case lines (every scenario drives a real Node).',
     assumptions=['the static call graph over-approximates which goroutine runs which function (function values stored and called later are attributed to the function that creates them)',
                  'one goroutine instance per object for the roots go:Node.run, go:channelProvider.run, go:lit:Channel.runReader, go:lit:Channel.runWriter (each works on its own receiver)',
                  'accesses inside other packages (pkg/frame, pkg/streamwriter, transports), through reflection, and by the application on frames it received are outside the table; the race detector covers them only on the schedules that were run'],
